@@ -13,6 +13,7 @@ import (
 	"os"
 	"path/filepath"
 	"regexp"
+	"sort"
 	"strings"
 	"sync"
 	"time"
@@ -150,20 +151,20 @@ type polCase struct {
 	Localhost string        `json:"localhost"`
 	TimeFrame []string      `json:"time_frame,omitempty"`
 	TZMin     int           `json:"tz_offset_min,omitempty"` // local time zone of the proxy host, minutes east of UTC
-	Start     time.Duration `json:"start"` // clock offset from Sat 2000-01-01 00:00 before anything starts
+	Start     time.Duration `json:"start"`                   // clock offset from Sat 2000-01-01 00:00 before anything starts
 	// routing
-	FlakyProxy int      `json:"flaky_proxy,omitempty"` // an upstream proxy resets the first N connections it accepts (per listening address)
-	FlakyDial int       `json:"flaky_dial,omitempty"` // the first N connection attempts to every address are refused (the dialer retries)
-	Upstream  string    `json:"upstream,omitempty"` // URL
-	PAC       string    `json:"pac,omitempty"`
-	Direct    []string  `json:"direct,omitempty"`
-	ConnectTo []string  `json:"connect_to,omitempty"`
-	Creds     []string  `json:"creds,omitempty"`
-	MITM      bool      `json:"mitm"`
-	ProxyName string    `json:"proxy_name,omitempty"`
-	Conns     []polConn `json:"conns"`
-	WOne      int       `json:"w_one"`
-	WRand     int       `json:"w_rand"`
+	FlakyProxy int       `json:"flaky_proxy,omitempty"` // an upstream proxy resets the first N connections it accepts (per listening address)
+	FlakyDial  int       `json:"flaky_dial,omitempty"`  // the first N connection attempts to every address are refused (the dialer retries)
+	Upstream   string    `json:"upstream,omitempty"`    // URL
+	PAC        string    `json:"pac,omitempty"`
+	Direct     []string  `json:"direct,omitempty"`
+	ConnectTo  []string  `json:"connect_to,omitempty"`
+	Creds      []string  `json:"creds,omitempty"`
+	MITM       bool      `json:"mitm"`
+	ProxyName  string    `json:"proxy_name,omitempty"`
+	Conns      []polConn `json:"conns"`
+	WOne       int       `json:"w_one"`
+	WRand      int       `json:"w_rand"`
 }
 
 // arrival is one request (or tunnel/SOCKS establishment) seen by a recorder node.
@@ -694,6 +695,16 @@ func (w *polWorld) arrivalsFor(token string) []*arrival {
 	return out
 }
 
+// rxNodes lists the nodes that received bytes, sorted.
+func (w *polWorld) rxNodes() []string {
+	var out []string
+	for node := range w.rawRx {
+		out = append(out, node)
+	}
+	sort.Strings(out)
+	return out
+}
+
 // tokenAnywhere reports the nodes whose received bytes contain s.
 func (w *polWorld) nodesHolding(s string) []string {
 	var out []string
@@ -702,5 +713,6 @@ func (w *polWorld) nodesHolding(s string) []string {
 			out = append(out, node)
 		}
 	}
+	sort.Strings(out)
 	return out
 }
